@@ -10,6 +10,7 @@ from framework import PropertyCheck
 
 REACTIONS = ["ack", "stale", "nak", "silence", "error", "rstack"]
 MAX_ATT = 5
+TAILS = ["error", "error2", "rstack", "tick", "submit", "ack"]
 
 
 class Driver:
@@ -30,10 +31,11 @@ class Driver:
         self.mark = 0
 
     def close(self):
-        for t in self.tasks.values():
-            t.cancel()
         try:
-            self.loop.settle()
+            for _ in range(4):
+                for t in asyncio.all_tasks(self.loop):
+                    t.cancel()
+                self.loop.settle()
         except Exception:
             pass
         self.loop.close()
@@ -99,10 +101,17 @@ class Driver:
             vloop.fz(p._t_rx_ack) + vloop.fz(self.loop.time())
 
 
-def run_script(nsends, script, waits=None, late=None, cancels=None, rng=None):
-    """nsends sends queued at t=0; then one reaction per step while anything is outstanding."""
+def run_script(nsends, script, waits=None, late=None, cancels=None, rng=None, warm=0, tail=None):
+    """[warm] sends acknowledged at once (prior traffic: the frame counter then starts anywhere in 0..7, wrapping
+    included); nsends sends queued; then one reaction per step while anything is outstanding."""
     d = Driver()
     try:
+        for w in range(warm):
+            d.submit(100 + w, bytes([0x70 + w, 0xEE]))
+            frm = d.pending_frm()
+            if frm is None:
+                break
+            d.frames([("ACK", 0, 0, (frm + 1) % 8)])
         for i in range(nsends):
             d.submit(i, bytes([0x10 + i, i]))
         k = 0
@@ -158,6 +167,25 @@ def run_script(nsends, script, waits=None, late=None, cancels=None, rng=None):
                 d.frames([("ERROR", 2, 0x51), ("RSTACK", 2, 2)])
             else:
                 raise ValueError(r)
+        # after the workload: further peer frames / timers / sends, whatever state the link is in (a failed NCP
+        # repeats its ERROR frame; each one is a failure the upper layer must hear about)
+        for r in tail or []:
+            if r == "error":
+                d.frames([("ERROR", 2, 0x52)])
+            elif r == "error2":
+                d.frames([("ERROR", 2, 0x51), ("ERROR", 2, 0x52)])
+            elif r == "rstack":
+                d.frames([("RSTACK", 2, 11)])
+            elif r == "tick":
+                if d.loop.next_deadline() is not None:
+                    d.tick()
+            elif r == "submit":
+                d.submit(nid, bytes([0x50 + (nid % 16), 0xAB]))
+                nid += 1
+            elif r == "ack":
+                frm = d.pending_frm()
+                if frm is not None:
+                    d.frames([("ACK", 0, 0, (frm + 1) % 8)])
         return {"events": d.events, "steps": [[_j(e) for e in st] for st in d.steps], "final": d.final(),
                 "left": len(d.outstanding())}
     except BaseException as e:  # noqa
@@ -209,8 +237,8 @@ class Check(PropertyCheck):
     shard = 150
     rule = ("per-attempt peer reactions {covering ACK, stale ACK then silence, NAK, silence, ERROR, RSTACK then silence} plus "
             "piggybacked ACK on DATA, ACK+NAK / NAK+ACK / ERROR+RSTACK in one read: all scripts up to a depth bound for one send "
-            "and for two queued sends, random scripts with 1-6 queued sends, late submissions, caller cancellations and partial "
-            "waits before reactions; virtual time, every timeout boundary hit exactly; non-trivial = at least one retransmission "
+            "and for two queued sends, each also after 1..9 acknowledged sends of prior traffic (every starting frame number, the wrap included), random scripts with 1-6 queued sends, late submissions, caller cancellations and partial "
+            "waits before reactions; tails of repeated ERROR frames / RSTACK / timers / new sends after the workload in every order to a depth; virtual time, every timeout boundary hit exactly; non-trivial = at least one retransmission "
             "or failure; distinct by script")
     assumptions = ["an acknowledgement and the timeout never fall into the same loop iteration (not modelled)",
                    "transport open; RST frames from the peer excluded"]
@@ -227,6 +255,14 @@ class Check(PropertyCheck):
         for n in range(0, d2 + 1):
             for s in itertools.product(REACTIONS, repeat=n):
                 cases.append({"n": 2, "script": list(s)})
+        # prior traffic: the first scripted send gets every frame number 0..7 (and the wrap 7 -> 0)
+        d3 = 2 if tier == "quick" else 4
+        for warm in range(1, 10):
+            for n in range(0, d3 + 1):
+                for s in itertools.product(REACTIONS, repeat=n):
+                    cases.append({"n": 1, "script": list(s), "warm": warm})
+                    if n <= d3 - 1:
+                        cases.append({"n": 2, "script": list(s), "warm": warm})
         allr = REACTIONS + ["dataack", "acknak", "nakack", "errrst", "ack", "ack", "silence", "nak"]
         for _ in range(300 if tier == "quick" else 5000):
             n = rng.randrange(1, 7)
@@ -238,11 +274,21 @@ class Check(PropertyCheck):
                 c["late"] = [rng.randrange(1, ln + 1)]
             if rng.random() < 0.25:
                 c["cancels"] = [rng.randrange(1, ln + 1)]
+            if rng.random() < 0.6:
+                c["warm"] = rng.randrange(1, 12)
+            if rng.random() < 0.4:
+                c["tail"] = [rng.choice(TAILS) for _ in range(rng.randrange(1, 6))]
             cases.append(c)
+        # what follows a failure: repeated ERROR frames, RSTACK, new sends, in every order up to a depth
+        d4 = 3 if tier == "quick" else 4
+        for first in (["error"], ["silence"] * 5, ["ack"]):
+            for n in range(1, d4 + 1):
+                for tl in itertools.product(TAILS, repeat=n):
+                    cases.append({"n": 1, "script": list(first), "tail": list(tl)})
         return cases
 
     def run_impl(self, case):
-        obs = run_script(case["n"], case["script"], case.get("waits"), case.get("late"), case.get("cancels"))
+        obs = run_script(case["n"], case["script"], case.get("waits"), case.get("late"), case.get("cancels"), warm=case.get("warm", 0), tail=case.get("tail"))
         case["_events"] = obs["events"]
         return {k: v for k, v in obs.items() if k != "events"}
 
